@@ -3,45 +3,21 @@ package main
 import (
 	"fmt"
 	"os"
-	"strings"
-	"syscall"
-	"time"
 
-	"github.com/onflow/cadence/common"
-	"github.com/onflow/cadence/parser"
-	"github.com/onflow/cadence/sema"
+	"github.com/onflow/cadence/parser/lexer"
 )
 
-func cpu() time.Duration {
-	var ru syscall.Rusage
-	syscall.Getrusage(syscall.RUSAGE_SELF, &ru)
-	return time.Duration(ru.Utime.Nano() + ru.Stime.Nano())
-}
-
 func main() {
-	rep := strings.Repeat
-	cons := map[string]func(n int) string{
-		"while":     func(n int) string { return "fun f() { " + rep("while a { ", n) + "b" + rep(" }", n) + " }" },
-		"if":        func(n int) string { return "fun f() { " + rep("if a { ", n) + "b" + rep(" }", n) + " }" },
-		"for":       func(n int) string { return "fun f() { " + rep("for x in a { ", n) + "b" + rep(" }", n) + " }" },
-		"switch":    func(n int) string { return "fun f() { " + rep("switch a { case b: ", n) + "c" + rep(" }", n) + " }" },
-		"fun":       func(n int) string { return "fun f() { " + rep("fun g() { ", n) + rep(" }", n) + " }" },
-		"composite": func(n int) string { return rep("struct S { ", n) + rep(" }", n) },
-		"declseq":   func(n int) string { return rep("let x = a\n", n) },
-		"stmtseq":   func(n int) string { return "fun f() { " + rep("a\n", n) + " }" },
-	}
-	name := os.Args[1]
-	for n := 64; n <= 16384; n *= 4 {
-		src := []byte(cons[name](n))
-		t0 := cpu()
-		p, err := parser.ParseProgram(nil, src, parser.Config{})
-		t1 := cpu()
-		var cerr error
-		if err == nil {
-			c, _ := sema.NewChecker(p, common.StringLocation("t"), nil, &sema.Config{AccessCheckMode: sema.AccessCheckModeNotSpecifiedUnrestricted})
-			cerr = c.Check()
+	for _, s := range os.Args[1:] {
+		ts, err := lexer.Lex([]byte(s), nil)
+		fmt.Printf("%q err=%v\n", s, err)
+		for {
+			t := ts.Next()
+			fmt.Printf("   %-14s %v-%v\n", t.Type, t.StartPos, t.EndPos)
+			if t.Type == lexer.TokenEOF {
+				break
+			}
 		}
-		t2 := cpu()
-		fmt.Println(name, n, "parse", t1-t0, err == nil, "check", t2-t1, cerr == nil)
+		ts.Reclaim()
 	}
 }
